@@ -176,4 +176,15 @@ example : Used ({} : St) := used_default
 
 example : Idle ({} : St) := ⟨rfl, rfl, rfl, rfl⟩
 
+/-- **A manual run, and every run not caused by an event, sees nothing — for every execution**: when a command of kind
+    `plain` (a manual `SystemCommand`, a resource-mutation reaction) reaches its run, all four trackers are idle after its
+    `setup`, so every reader reports that there is nothing to read (`idle_sees_nothing`); and a run caused by an event sees
+    that event only (`C03.C03_all` with the per-reader theorems). Together with `C04_flags_exact` (the flags stay exactly
+    these until the run's cleanup) and the cleanup placement lemmas this is C04 for whole executions. -/
+theorem C04_plain_run_sees_nothing (p : Prog) (h : Hist) {s : St} (hr : Reach p h ({} : St) s) {sys idx : Nat} {rest : List Frame}
+    (hst : s.stack = Frame.runnerLookup sys .plain idx :: rest) :
+    Idle (setupK { s with stack := rest, storage := upd s.storage sys (some false), counter := s.counter + 1 } .plain sys) := by
+  have := (C03.C03_all p h hr hst).2
+  simpa [C03.FlagsFor, Idle] using this
+
 end Cobweb.C04
